@@ -111,6 +111,8 @@ class FortranRegularExpressions:
 
     SQ_STRING: Pattern = compile(r"\'[^\']*\'", I)
     DQ_STRING: Pattern = compile(r"\"[^\"]*\"", I)
+    #: A character literal of either kind, whichever starts first
+    STRING: Pattern = compile(r"\'[^\']*\'|\"[^\"]*\"", I)
     LINE_LABEL: Pattern = compile(r"[ ]*([0-9]+)[ ]+", I)
     NON_DEF: Pattern = compile(r"[ ]*(CALL[ ]+[a-z_]|[a-z_][\w%]*[ ]*=)", I)
     # Fixed format matching rules
